@@ -545,13 +545,24 @@ def run(ctx):
 
     # ---------------- (G) small generated rulesets
     for r in range(n):
-        name = "E%d" % r
+        # ruleset names with letters that case-fold / normalise, and copy names that only LOOK like the source name (other case,
+        # decomposed spelling, sharp s vs ss, a trailing blank): on this file system they are different folders, so --copy must
+        # create one and leave the source alone
+        name = ctx.rng.choice(["E%d", "E%d", "Policy%d", "D\u00e9faut%d", "Stra\u00dfe%d"]) % r
         rs = make_ruleset(ctx.rng, name)
         rd = os.path.join(rules, name)
         rulesets.write_ruleset(rs, rd)
         opt = options(ctx.rng)
-        copy = ("E%dc" % r) if ctx.rng.random() < 0.35 else None
-        replay = {"ruleset": rs, "options": opt, "copy": bool(copy)}
+        copy = None
+        if ctx.rng.random() < 0.4:
+            import unicodedata
+            alike = [c for c in (name.lower(), name.upper(), unicodedata.normalize("NFD", name), name.replace("\u00df", "ss"), name + " ")
+                     if c != name]
+            copy = ctx.rng.choice(alike) if alike and ctx.rng.random() < 0.6 else name + "c"
+            if os.path.exists(os.path.join(rules, copy)):
+                copy = name + "c"
+            dist["look_alike_copy_names"] = dist.get("look_alike_copy_names", 0) + (copy != name + "c")
+        replay = {"ruleset": rs, "options": opt, "copy": bool(copy), "copy_name": copy}
         st = edit_step(E, name, opt, copy, replay)
         count(opt, copy, st)
         vio += st["vio"]
@@ -561,7 +572,7 @@ def run(ctx):
             if after_lines and r % 2 == 0:
                 opt2 = options(ctx.rng)
                 dist["second_edits"] = dist.get("second_edits", 0) + 1
-                replay2 = {"ruleset": rs, "options": opt, "copy": bool(copy), "then": opt2}
+                replay2 = {"ruleset": rs, "options": opt, "copy": bool(copy), "copy_name": copy, "then": opt2}
                 st2 = edit_step(E, st["target"], opt2, None, replay2, ":second-edit")
                 vio += st2["vio"]
                 cases.append(coq_case(after_lines, st2["after"], opt2))
@@ -747,7 +758,7 @@ def replay(ctx, data):
         return [{"sig": "C20:replay-cannot-build-source", "what": err, "replay": inp}]
     trained, large = "train" in inp, "large" in inp
     kw = {"lengths": not large, "skip_markov": trained, "timeout": 600}
-    st = edit_step(E, name, inp["options"], (name + "c") if inp.get("copy") else None, inp, **kw)
+    st = edit_step(E, name, inp["options"], (inp.get("copy_name") or (name + "c")) if inp.get("copy") else None, inp, **kw)
     vio = list(st["vio"])
     if "then" in inp and st["after"]:
         vio += edit_step(E, st["target"], inp["then"], None, inp, ":second-edit", **kw)["vio"]
